@@ -1247,6 +1247,13 @@ func (w *responseWriter) reportEnd(end *responseEnd) {
 		// add any pending trailers to the end
 		end.trailers = w.respMeta.pendingTrailers
 	}
+	if w.respMeta != nil {
+		// Trailers the handler set in its own protocol are part of 'end' by now
+		// if they were wanted. Whatever is still in the header map (like the
+		// handler's grpc-status when we end the RPC with our own error) must not
+		// be sent along with the end we are about to write.
+		httpExtractTrailers(w.Header(), w.respMeta.pendingTrailerKeys)
+	}
 	switch {
 	case w.headersFlushed:
 		// write error to body or trailers
